@@ -37,7 +37,9 @@ m = {
               "source_commits": hook_commits, "add_only": True},
     "engines": [
         {"name": "tla-trace-validation", "path": "/verif/spec/Trace.tla", "serves_properties": sorted(P.PROPS), "kind_free_text": "TLC evaluates the Cnn_* formulas of Trace.tla on states/steps recorded by /verif/harness from the real provider and consumer applications"},
-        {"name": "tlc-family-models", "path": "/verif/spec/MC_*.tla", "serves_properties": sorted(P.PROPS), "kind_free_text": "exhaustive TLC runs of family sub-models under small constants"},
+        {"name": "tlc-family-models", "path": "/verif/spec/MC_*.tla", "serves_properties": sorted(p for p in P.PROPS if P.PROPS[p].get("mc")), "kind_free_text": "exhaustive TLC runs of family sub-models under small constants"},
+        {"name": "tlc-generated-behaviour-replay", "path": "/verif/spec/MC_*Gen.tla", "serves_properties": sorted(p for p in P.PROPS if any("mbt" in c for c in P.PROPS[p]["corpora"])),
+         "kind_free_text": "tlc -simulate generates behaviours of the family models; /verif/harness/mbt.go replays them on the real provider block by block and TLC (Trace.tla, MBT_* formulas) compares the observed state with the model after every message and block"},
     ],
     "checks": checks,
     "notes": "Model-based verification with an explicit TLA+ specification; see DESIGN.md. Exit codes: 0 held, 1 VIOLATION (real-code behaviour), 2 tool/harness/vacuity problem.",
